@@ -8,8 +8,8 @@ from ..facts import keyname, AnchorLost
 from ..flow import flow, deps, deep_strip, strip, show, mentions, fold
 from .util import call_sites, result_gates
 from .lockrules import poison_rules
-from .C04 import installers
-from .C02 import _register_impls, DATA_T
+from .C02 import registering, DATA_T
+from . import reg
 
 
 def def_graph(F):
@@ -50,56 +50,42 @@ def reach_def(edges, start, removed=()):
     return seen
 
 
-def checker_and_target(F):
-    """checker: the function that tests membership in FORBIDDEN and panics; target: the function calling the installer"""
-    checkers = set()
-    for i in F.inst:
-        if i.body is None or not i.local or i.crate != "signal_hook_registry":
-            continue
-        uses = False
-        for bl in i.blocks:
-            for s in bl["s"]:
-                if s["k"] == "assign" and s["r"]["k"] == "use" and s["r"]["o"]["k"] == "const" and \
-                        (s["r"]["o"]["c"].get("def") or "").startswith("signal_hook_registry::FORBIDDEN"):
-                    uses = True
-        if uses:
-            checkers.add(i.defp)
-    ins = {i.defp for i in installers(F)}
-    targets = {F.inst[cid].defp for i in installers(F) for (cid, k, bb) in F.callers().get(i.id, []) if k == "call"}
-    if len(checkers) != 1 or len(targets) != 1:
-        raise AnchorLost("forbidden-signal checker %s / registering function %s" % (sorted(checkers), sorted(targets)))
-    return checkers.pop(), targets.pop()
+def registry_effects(F, n):
+    """effects of a registration in a normal form: installing sigaction calls, publishes of the data snapshot, fallback stores"""
+    from .C04 import install_calls
+    L = reg.locks(F)
+    inst, queries = install_calls(F, n)
+    return inst, queries, reg.calls_to(n, L.stores(DATA_T)), reg.calls_to(n, L.stores(reg.FB_T))
 
 
 def rule_a(ctx):
     F = ctx.F
     rid = "C14.a"
-    ctx.rule(rid, "call-graph cut: with the function containing the FORBIDDEN assertion removed, the registering function is unreachable from every "
-                  "public function of the workspace except the documented `*_unchecked` entry points", floor=20)
+    ctx.rule(rid, "who may bypass the check: every public registering function of the registry either tests FORBIDDEN before any effect (C14.b) or is a "
+                  "documented `*_unchecked` entry point, and no function outside the registry crate reaches an unchecked entry point", floor=20)
     fns, edges = def_graph(F)
-    checker, target = checker_and_target(F)
-    ctx.note("checker = %s, registering function = %s" % (checker, target))
-    if checker not in fns or target not in fns:
-        raise AnchorLost("def-level graph lacks %s or %s" % (checker, target))
+    regs = registering(F)
+    reg_defs = {fn["path"] for fn, _, _ in regs}
+    unchecked = {p for p in reg_defs if "unchecked" in p.split("::")[-1]}
+    checked = reg_defs - unchecked
+    if not checked or not unchecked:
+        raise AnchorLost("registry entry points: checked %s unchecked %s" % (sorted(checked), sorted(unchecked)))
+    for p in sorted(reg_defs):
+        if p in unchecked:
+            ctx.ok(rid, "entry:%s" % p, "documented unchecked entry point (bypasses the check by contract)", fns[p]["span"] if p in fns else None)
     n = 0
     for p, f in sorted(fns.items()):
-        if not f["pub"] or f["kind"] == "Closure":
+        if not f["pub"] or f["kind"] == "Closure" or p in reg_defs:
             continue
         full = reach_def(edges, p)
-        if target not in full:
+        if not (full & reg_defs):
             continue
         n += 1
-        cut = reach_def(edges, p, removed={checker})
-        name = p.split("::")[-1]
-        unchecked_api = "unchecked" in name and p.startswith("signal_hook_registry::")
-        key = "entry:%s" % p
-        if unchecked_api:
-            ctx.ok(rid, key, "documented unchecked entry point (bypasses the check by contract)", f["span"])
-        else:
-            ctx.check(target not in cut, rid, key, "public entry point %s reaches the registering function only through the forbidden-signal check" % p, f["span"],
-                      {"bypass": _path(edges, p, target, {checker})})
+        hit = sorted(full & unchecked)
+        ctx.check(not hit, rid, "entry:%s" % p, "public entry point %s registers only through the checked registry functions" % p, f["span"],
+                  {"reaches_unchecked": hit, "path": _path(edges, p, hit[0], set()) if hit else None})
     if n < 10:
-        raise AnchorLost("only %d public functions reach the registering function (expected >= 10 incl. flags, pipe, iterators, adapters)" % n)
+        raise AnchorLost("only %d public functions reach a registering function (expected >= 10 incl. flags, pipe, iterators, adapters)" % n)
 
 
 def _path(edges, src, dst, removed):
@@ -154,119 +140,69 @@ def membership_tests(F, m):
 def rule_b(ctx):
     F = ctx.F
     rid = "C14.b"
-    ctx.rule(rid, "the assertion tests membership of the `signal` parameter in FORBIDDEN, the registering call is control-dependent on 'not "
-                  "contained' and is the first effect; on the panic path the would-be action is dropped", floor=4)
-    checker, target = checker_and_target(F)
-    cs = [i for i in F.inst if i.local and i.body is not None and i.defp == checker]
-    if checker == target:
-        return _merged_checker(ctx, F, rid, cs)
-    for m in cs:
-        ctx.fn(m)
+    ctx.rule(rid, "in every checked public registering function (helpers inlined) the `signal` parameter is tested for membership in FORBIDDEN, every "
+                  "effect (install, publish, fallback store) is reachable only through the not-forbidden outcome, the number installed is the number "
+                  "tested, and on the panic path the would-be action is dropped", floor=4)
+    for fn, m0, m in registering(F):
+        name = fn["path"].split("::")[-1]
+        if "unchecked" in name:
+            continue
+        ctx.fn(m0)
         fl = flow(m)
-        tcalls = [(bb, t) for bb, t in m.calls() if t.get("f") is not None and F.inst[t["f"]].defp == target]
-        cont, how = membership_tests(F, m)
-        if len(cont) != 1 or not tcalls:
-            raise AnchorLost("checker shape: membership test on FORBIDDEN / registering call")
-        cbb, ct = cont[0]
-        ctx.check(how[cbb]["needle_is_signal"], rid, "tests-signal-in-FORBIDDEN", "the check tests the function's own signal parameter for membership in FORBIDDEN (%s)" % how[cbb]["form"],
-                  ct["sp"], how[cbb])
-        for tbb, tt in tcalls:
-            facts = facts_at(m, tbb)
-            dep = any(c[0] == "call" and c[1] == cbb and truth(inf) is False for (c, inf, b) in facts)
-            ctx.check(dep, rid, "register-only-if-not-forbidden", "the registering call is reached only when contains() returned false", tt["sp"], [(show(c), i) for c, i, _ in facts])
-            sig = [deep_strip(e) for e in fl.term_arg(tbb, 0)]
-            ctx.check(sig == [("param", 1)], rid, "same-signal", "the checked number is the one registered", tt["sp"], [show(e) for e in sig])
-        # first effect: no other workspace / FFI call can run before the check's outcome is known
-        dom = cfg.dominators(m)
-        early = []
-        for bb, t in m.calls():
-            if t.get("f") is None:
-                continue
-            c = F.inst[t["f"]]
-            if (c.local or c.kind == "foreign") and bb != cbb and not (cbb in dom[bb]):
-                early.append(c.name)
-        ctx.check(not early, rid, "check-first", "no workspace or FFI call precedes the check", m.span, early)
+        mt, how = membership_tests(F, m)
+        if not mt:
+            raise AnchorLost("%s: membership test on FORBIDDEN" % name)
+        cont = [bb for bb, _ in mt]
+        for cbb in cont:
+            ctx.check(how[cbb]["needle_is_signal"], rid, "tests-signal-in-FORBIDDEN@%s" % name, "the check tests the function's own signal parameter for membership in FORBIDDEN (%s)" % how[cbb]["form"],
+                      m.term(cbb)["sp"], how[cbb])
+        inst, queries, pubs, fbs = registry_effects(F, m)
+        effects = inst + queries + pubs + fbs
+        if not inst or not pubs:
+            raise AnchorLost("%s: effects (install / publish)" % name)
+        seen = cfg.reachable(m, 0, avoid=set(cont), unwind=False)
+        for bb, t in effects:
+            what = (t.get("def") or "").split("::")[-1]
+            facts = facts_at(m, bb)
+            dep = any(c[0] == "call" and c[1] in cont and truth(inf) is False for (c, inf, b) in facts)
+            ctx.check(bb not in seen and dep, rid, "effect-behind-check:%s@%s" % (what, name),
+                      "the %s is reached only when the membership test answered 'not forbidden'" % what, t["sp"],
+                      {"path_without_check": cfg.path(m, 0, bb, avoid=set(cont), unwind=False), "facts": [(show(c), i) for c, i, _ in facts][:8]})
+        for bb, t in inst:
+            sig = [deep_strip(e) for e in fl.term_arg(bb, 0)]
+            ctx.check(sig == [("param", 1)], rid, "same-signal@%s" % name, "the checked number is the one installed", t["sp"], [show(e) for e in sig])
         # panic path drops the action
-        panics = [bb for bb, t in m.calls() if t.get("ret") is None and (t.get("def") or "").startswith("core::panicking")]
-        okd = True
+        panics = [bb for bb, t in m.calls() if t.get("ret") is None and (t.get("def") or "").startswith("core::panicking") and
+                  any(c in cfg.dominators(m)[bb] for c in cont)]
+        okd = bool(panics)
+        # locals that carry the action: the parameter, and whatever it is moved into (argument bindings of inlined helpers, the wrapping closure)
+        carriers = {2}; grow = True
+        while grow:
+            grow = False
+            for bl in m.blocks:
+                for st in bl["s"]:
+                    if st["k"] != "assign" or st["l"]["p"] or st["l"]["l"] in carriers:
+                        continue
+                    r_ = st["r"]
+                    ops = [r_["o"]] if r_["k"] == "use" else (r_["ops"] if r_["k"] == "aggregate" else [])
+                    if any(o.get("k") == "move" and not o["p"]["p"] and o["p"]["l"] in carriers for o in ops):
+                        carriers.add(st["l"]["l"]); grow = True
         for pb in panics:
             r = cfg.reachable_after(m, pb, labels=["unw"])
-            drops = [b for b in r if m.term(b)["k"] == "drop" and not m.term(b)["p"]["p"] and m.term(b)["p"]["l"] == 2]
-            if m.term(pb).get("needs") is None and not drops and m.local_ty(2) and "closure" in m.local_ty(2):
-                # closures without drop glue have no Drop terminator; needs_drop tells
-                okd = okd and not _needs_drop(F, m, 2)
-        ctx.check(panics and okd, rid, "panic-drops-action", "unwinding out of the refusal drops the would-be action (its captures are released)", m.span,
+            drops = [b for b in r if m.term(b)["k"] == "drop" and not m.term(b)["p"]["p"] and m.term(b)["p"]["l"] in carriers]
+            if not drops and _needs_drop(F, m0, m, 2):
+                okd = False
+        ctx.check(okd, rid, "panic-drops-action@%s" % name, "unwinding out of the refusal drops the would-be action (its captures are released)", m0.span,
                   "the action is leaked on the panic path")
 
 
-def _merged_checker(ctx, F, rid, cs):
-    """the assertion lives inside the registering function itself (possibly behind a `check` flag parameter): every effect must be
-    reachable only through the membership test's not-forbidden outcome or through an explicit flag-off edge"""
-    ins = [i.id for i in installers(F)]
-    for m in cs:
-        ctx.fn(m)
-        fl = flow(m)
-        mt, how = membership_tests(F, m)
-        cont = [bb for bb, _ in mt]
-        if not cont:
-            raise AnchorLost("membership test on FORBIDDEN")
-        for cbb in cont:
-            ctx.check(how[cbb]["needle_is_signal"], rid, "tests-signal-in-FORBIDDEN", "the check tests the function's own signal parameter for membership in FORBIDDEN",
-                      m.term(cbb)["sp"], how[cbb])
-        from .pub import publish_sites
-        pubs = {bb for bb, t, gi, vi in publish_sites(F, m, DATA_T)}
-        effects = [(bb, t) for bb, t in m.calls() if t.get("f") is not None and (bb in pubs or t["f"] in ins)]
-        if not effects:
-            raise AnchorLost("effects (publish / install) in the registering function")
-        # flag-off edges: switch on a bool parameter whose other edge leads to the membership test
-        off_edges = set(); flags = set()
-        for b in range(m.nblocks()):
-            t = m.term(b)
-            if t["k"] != "switch":
-                continue
-            ex = [deep_strip(e) for e in fl.term_operand(b, t["d"])]
-            if len(ex) == 1 and ex[0][0] == "param" and m.local_ty(ex[0][1]) == "bool":
-                for tg, lab in m.succ_labeled(b):
-                    leads = any(c == tg or c in cfg.reachable(m, tg, unwind=False) for c in cont)
-                    if not leads and lab == "sw:0":
-                        off_edges.add((b, tg, lab)); flags.add(ex[0][1])
-        # reachability from entry avoiding the membership test and the flag-off edges
-        seen = set(); st = [0]
-        while st:
-            x = st.pop()
-            if x in seen or x in cont:
-                continue
-            seen.add(x)
-            for tg, lab in m.succ_labeled(x):
-                if lab == "unw" or (x, tg, lab) in off_edges:
-                    continue
-                st.append(tg)
-        for bb, t in effects:
-            ctx.check(bb not in seen, rid, "effect-behind-check:%s@%s" % ((t.get("def") or "").split("::")[-1], keyname(m.name)),
-                      "the %s is reachable only through the forbidden-signal test (or an explicit check-off edge)" % (t.get("def") or "").split("::")[-1], t["sp"],
-                      {"path_without_check": cfg.path(m, 0, bb, avoid=set(cont), unwind=False),
-                       "why": "e.g. an already existing slot: a forbidden signal taken over once through the unchecked API is then accepted by every checked entry point"})
-        # who may switch the check off
-        for (cid, k, cb) in F.callers().get(m.id, []):
-            c = F.inst[cid]
-            if c.body is None or k != "call":
-                continue
-            for fp in flags:
-                v = [fold(e) for e in flow(c).term_arg(cb, fp - 1)]
-                name = c.defp.split("::")[-1]
-                if v == [1]:
-                    ctx.ok(rid, "flag-on@%s" % keyname(c.name), "%s asks for the check" % name, c.term(cb)["sp"])
-                else:
-                    ctx.check(v == [0] and "unchecked" in name, rid, "flag-off@%s" % keyname(c.name), "only a documented *_unchecked entry point switches the check off", c.term(cb)["sp"], v)
-
-
-def _needs_drop(F, m, local):
-    ty = m.local_ty(local)
+def _needs_drop(F, m0, m, local):
+    """does the type of `local` have drop glue? (rustc emits no Drop terminator at all for types without)"""
     for bb, t in m.drops():
         if not t["p"]["p"] and t["p"]["l"] == local:
             return t.get("needs_drop", True)
-    # no drop terminator at all for this local: rustc elides it only when the type has no drop glue
-    return False
+    ty = m.local_ty(local)
+    return any(i.kind == "drop_glue" and i.drop_ty == ty and i.body is not None and i.nblocks() > 1 for i in F.inst)
 
 
 def rule_c(ctx):
@@ -281,24 +217,56 @@ def rule_c(ctx):
         ctx.check(nums[w] in have, rid, "forbidden:%s" % w, "%s (%d) is in FORBIDDEN" % (w, nums[w]), None, {"FORBIDDEN": have})
 
 
+def result_tests(m, call_bb):
+    """switch edges deciding on the integer result of the call at call_bb: (test blocks, failure edges {(src, dst)})"""
+    from ..conds import switch_edges
+    tests = set(); fail = set()
+    for (b, tgt, lab, exprs, t) in switch_edges(m):
+        for e in exprs:
+            e = deep_strip(e)
+            cmpop = None
+            if e[0] == "call" and e[1] == call_bb:
+                x = e
+            elif e[0] == "binop" and e[1] in ("Eq", "Ne") and ((deep_strip(e[2])[0] == "call" and deep_strip(e[2])[1] == call_bb and fold(e[3]) == 0) or
+                                                              (deep_strip(e[3])[0] == "call" and deep_strip(e[3])[1] == call_bb and fold(e[2]) == 0)):
+                cmpop = e[1]
+            else:
+                continue
+            tests.add(b)
+            val = int(lab[3:]) if lab.startswith("sw:") else None
+            if cmpop is None:
+                failure = (val is not None and val != 0) or (val is None and 0 in [v for v, _ in t["vals"]])
+            else:
+                is_true = (val is not None and val != 0) or (val is None and [v for v, _ in t["vals"]] == [0])
+                failure = (cmpop == "Ne" and is_true) or (cmpop == "Eq" and not is_true)
+            if failure:
+                fail.add((b, tgt))
+    return tests, fail
+
+
 def rule_d(ctx):
     F = ctx.F
     rid = "C14.d"
-    ctx.rule(rid, "errors from the OS propagate before the snapshot is published: on the Err outcome of the disposition query / the installing "
-                  "call the publish is unreachable and the action is dropped", floor=2)
-    ins = [i.id for i in installers(F)]
-    for r in _register_impls(F):
-        ctx.fn(r)
-        from .pub import publish_sites
-        stores = [bb for bb, t, gi, vi in publish_sites(F, r, DATA_T)]
-        fall = [bb for bb, t in r.calls() if t.get("f") is not None and (F.inst[t["f"]].defp.endswith("Prev::detect") or t["f"] in ins)]
-        if not stores or len(fall) < 2:
-            raise AnchorLost("registration: fallible calls %d / publish %d" % (len(fall), len(stores)))
-        for fb in fall:
-            for sb in stores:
-                g, why = result_gates(F, r, fb, sb)
-                ctx.check(g, rid, "err-before-publish:%s@%s" % ((r.term(fb).get("def") or "").split("::")[-1], keyname(r.name)),
-                          "the snapshot is published only when %s succeeded" % (r.term(fb).get("def") or "").split("::")[-1], r.term(fb)["sp"], why)
+    ctx.rule(rid, "errors from the OS propagate before the snapshot is published: from the failure outcome of the disposition query / the installing "
+                  "sigaction call no publish is reachable (helpers and `?` inlined, paths resolved)", floor=2)
+    for fn, r0, r in registering(F):
+        ctx.fn(r0)
+        name = fn["path"].split("::")[-1]
+        inst, queries, pubs, fbs = registry_effects(F, r)
+        if not pubs or not inst or not queries:
+            raise AnchorLost("registration: sigaction calls %d+%d / publish %d" % (len(inst), len(queries), len(pubs)))
+        for kind, calls in (("query", queries), ("install", inst)):
+            for sb, st in calls:
+                tests, fail = result_tests(r, sb)
+                after = cfg.reachable_after(r, sb, unwind=False)
+                for pb, pt in pubs:
+                    if pb not in after:
+                        continue
+                    gated, _ = cfg.every_path_passes(r, sb, [pb], tests, unwind=False)
+                    leak = [d for (s_, d) in fail if pb == d or pb in cfg.reachable(r, d, unwind=False)]
+                    ctx.check(bool(tests) and gated and not leak, rid, "err-before-publish:%s@%s" % (kind, name),
+                              "the snapshot is published only when the %s sigaction call succeeded" % kind, st["sp"],
+                              {"result_tested": bool(tests), "every_path_tests_it": gated, "publish_reachable_from_failure_edge": bool(leak)})
 
 
 def rule_e(ctx):
